@@ -77,6 +77,33 @@ pub fn context_messages() -> Vec<(String, Vec<u8>)> {
             out.push((format!("status.header[+{k}={v:#06x}]"), m));
         }
     }
+    // the frame of a fixed-length type is 2432 bytes whatever its own header says about size and
+    // segments: size, count and number fields of every fixed kind x value (a size field of 0xFFFF
+    // is the variable-length marker, under which count/number read as a 32-bit size)
+    for (kind, typ) in [("status", 2u8), ("vcp", 5), ("t15", 15), ("t3", 3), ("t18", 18), ("t13", 13), ("t200", 200)] {
+        let base = match typ {
+            2 => fixed_frame(&header(2, 0), &rda_body(&rda_in_domain())),
+            5 => fixed_frame(&header(5, 0), &vcp_body(&vcp_header_hw(212, 2), &[VcpCut::new(0x0058, 0, 1, 1, 1), VcpCut::new(0x00B0, 2, 4, 0, 2)])),
+            15 => crate::props::c03::message_bytes(2, 0),
+            t => fixed_frame(&header(t, 0), &[0x5Au8; 64]),
+        };
+        for k in [12usize, 24, 26] {
+            for v in [0x0000u16, 0x0001, 0x0009, 0x04B8, 0x04C0, 0x7FFF, 0xFFFE, 0xFFFF] {
+                let mut m = base.clone();
+                m[k..k + 2].copy_from_slice(&v.to_be_bytes());
+                out.push((format!("{kind}.header[+{k}={v:#06x}]"), m.clone()));
+                if k == 12 && v == 0xFFFF {
+                    // marker + a small / huge 32-bit size in the count and number fields
+                    for (c, n) in [(0u16, 0u16), (0, 1216), (0, 2432), (1, 0), (0xFFFF, 0xFFFF)] {
+                        let mut m2 = m.clone();
+                        m2[24..26].copy_from_slice(&c.to_be_bytes());
+                        m2[26..28].copy_from_slice(&n.to_be_bytes());
+                        out.push((format!("{kind}.header[marker,size32={:#010x}]", ((c as u32) << 16) | n as u32), m2));
+                    }
+                }
+            }
+        }
+    }
     out
 }
 
